@@ -86,7 +86,7 @@ func argFor(cc *ssa.CallCommon, g *ssa.Function, j int) ssa.Value {
 func runC08(c *Ctx) {
 	c.rule("E1", "exclusion patterns are never dropped on the way down: calls between pattern-carrying functions pass values derived from the caller's patterns; no call to a pattern-less recursive operation, directly or through helpers", 12)
 	c.rule("E2", "every pattern-carrying function forwards or applies its patterns", 15)
-	c.rule("E3", "loops over directory listings iterate a list filtered with the patterns, or guard each use of the item with !IsPathExcluded", 5)
+	c.rule("E3", "loops over directory listings iterate a list filtered with the patterns, or guard each use of the item with !IsPathExcluded", 4)
 	c.rule("E4", "exported functions taking pattern strings compile them (error → error exit) before their first mutating effect", 8)
 
 	s := &c08State{c: c, eff: c.computeEffects(), E: map[*ssa.Function][]int{}}
